@@ -1,14 +1,18 @@
 ---- MODULE RequestLifecycleTrace ----
 (* Trace validation of real request life cycles (in-process MOSN, hooks in pkg/proxy) against
    RequestLifecycle.  Events:
-     run{name, budget}          driver: a new guided run starts (TraceReset); budget = retry budget of the route used
+     run{name, budget, ptheld}  driver: a new guided run starts (TraceReset); budget = retry budget of the route used;
+                                ptheld (optional) = the schedule of the run holds a per-try timer callback at its start
      new{rid, oneway}           hook ds.new
      attempt{rid, host, res}    hook us.attempt: res = "sent" | "Overflow" | "ConnectionFailure"
      reply{rid, code, end}      hook ds.reply: response headers handed to the downstream stream
      clientreset{rid}           hook ds.clientreset
      terminate{rid}             a stream filter terminated the request (C14 drivers)
      clean{rid}                 hook ds.clean (after the CAS in cleanStream)
-     note{...}                  informational hook events (timers, upstream receive/reset, loop phases): no constraint
+     note{...}                  informational hook events (timers, upstream receive/reset, loop phases): no constraint, but
+                                note{retry}   hook ds.loop.phase with phase Retry: the worker has handled the end of the
+                                              current attempt and admitted a retry (setupRetry)
+                                note{ptwon}   hook ds.ptimer, compare-and-swap won: a per-try timeout is about to be applied
      cdone{rid, kind, status, extra, elapsed, bound, foreign}   driver: what the client observed on its connection
                                 (foreign: a proxy-made reply whose body holds the token of an upstream answer)
      upseen{rid, data, trailers, sent, arrivals, blen, same, want}   driver, unguided request-shape runs (RequestShape.tla):
@@ -22,53 +26,68 @@
                                 relative to their values when the run began) *)
 EXTENDS RequestLifecycle, VTrace
 
-tvars == <<vars, l>>
+(* A per-try timeout belongs to ONE attempt (DownstreamImpl!PerTryTimerOnlyWhileTryOpen): once the worker has handled the
+   end of an attempt and admitted the retry, that attempt's timer is stopped; until the next attempt is handed to the
+   pool no per-try timeout can be applied - except by a callback that was already running when the attempt ended (Stop
+   cannot cancel it), which only happens when the schedule holds one at its start (lateOK). *)
+VARIABLES tryEnded,   \* rid -> the worker has handled the end of the last attempt (retry admitted), the next one is not out yet
+          lateOK      \* this run may see a per-try callback complete late
+tvars == <<vars, tryEnded, lateOK, l>>
 
 CONSTANT MaxRid           \* largest stream id in the trace (computed by the check, keeps Rids cheap to evaluate)
 RidsOf == 0..MaxRid
 
-TraceInit == l = 1 /\ Init
+TraceInit == l = 1 /\ Init /\ tryEnded = [r \in Rids |-> FALSE] /\ lateOK = TRUE
 
 TRun == /\ IsEvent("run")
         /\ st' = [r \in Rids |-> "none"] /\ replies' = [r \in Rids |-> 0] /\ attempts' = [r \in Rids |-> 0]
         /\ explained' = [r \in Rids |-> {}] /\ budget' = [r \in Rids |-> Ev.budget] /\ active' = 0
+        /\ tryEnded' = [r \in Rids |-> FALSE]
+        /\ lateOK' = IF Has(Ev, "ptheld") THEN Ev.ptheld ELSE TRUE     \* a driver that does not say is not judged on this
 
 TNew == /\ IsEvent("new")
         /\ Expect(st[Ev.rid] = "none", "stream-id-reused")
         /\ st' = [st EXCEPT ![Ev.rid] = "open"]
         /\ explained' = [explained EXCEPT ![Ev.rid] = IF Ev.oneway THEN {"oneway"} ELSE {}]
         /\ active' = active + 1
-        /\ UNCHANGED <<replies, attempts, budget>>
+        /\ UNCHANGED <<replies, attempts, budget, tryEnded, lateOK>>
 
 TAttempt == /\ IsEvent("attempt")
             /\ Expect(st[Ev.rid] = "open", "attempt-after-end")
             /\ Expect(replies[Ev.rid] = 0, "attempt-after-reply")
             /\ Expect(attempts[Ev.rid] < 1 + budget[Ev.rid], "attempts-exceed-budget")
             /\ attempts' = [attempts EXCEPT ![Ev.rid] = @ + 1]
-            /\ UNCHANGED <<st, replies, explained, budget, active>>
+            /\ tryEnded' = [tryEnded EXCEPT ![Ev.rid] = FALSE]
+            /\ UNCHANGED <<st, replies, explained, budget, active, lateOK>>
 
 TReply == /\ IsEvent("reply")
           /\ Expect(st[Ev.rid] = "open", "reply-after-end")
           /\ Expect(replies[Ev.rid] = 0, "second-reply")
           /\ replies' = [replies EXCEPT ![Ev.rid] = @ + 1]
-          /\ UNCHANGED <<st, attempts, explained, budget, active>>
+          /\ UNCHANGED <<st, attempts, explained, budget, active, tryEnded, lateOK>>
 
 TClientReset == /\ IsEvent("clientreset")
                 /\ explained' = [explained EXCEPT ![Ev.rid] = @ \cup {"client"}]
-                /\ UNCHANGED <<st, replies, attempts, budget, active>>
+                /\ UNCHANGED <<st, replies, attempts, budget, active, tryEnded, lateOK>>
 
 TTerminate == /\ IsEvent("terminate")
               /\ explained' = [explained EXCEPT ![Ev.rid] = @ \cup {"terminated"}]
-              /\ UNCHANGED <<st, replies, attempts, budget, active>>
+              /\ UNCHANGED <<st, replies, attempts, budget, active, tryEnded, lateOK>>
 
 TClean == /\ IsEvent("clean")
           /\ Expect(st[Ev.rid] = "open", "clean-twice")
           /\ Expect(replies[Ev.rid] = 1 \/ explained[Ev.rid] # {}, "ended-without-reply-or-cause")
           /\ st' = [st EXCEPT ![Ev.rid] = "ended"]
           /\ active' = active - 1
-          /\ UNCHANGED <<replies, attempts, explained, budget>>
+          /\ UNCHANGED <<replies, attempts, explained, budget, tryEnded, lateOK>>
 
-TNote == IsEvent("note") /\ UNCHANGED vars
+TNote == /\ IsEvent("note")
+         /\ IF Has(Ev, "retry") /\ Has(Ev, "rid") /\ Ev.rid \in Rids
+            THEN tryEnded' = [tryEnded EXCEPT ![Ev.rid] = TRUE]
+            ELSE /\ UNCHANGED tryEnded
+                 /\ Expect(~(Has(Ev, "ptwon") /\ Has(Ev, "rid") /\ Ev.rid \in Rids) \/ ~tryEnded[Ev.rid] \/ lateOK,
+                           "per-try-timeout-of-ended-attempt")
+         /\ UNCHANGED <<vars, lateOK>>
 
 (* the client's view must agree with the proxy's: a response iff one reply was started, nothing after it *)
 TCDone == /\ IsEvent("cdone")
@@ -80,7 +99,7 @@ TCDone == /\ IsEvent("cdone")
           /\ Expect(Ev.kind # "response" \/ Ev.rid = 0 \/ "oneway" \notin explained[Ev.rid], "reply-to-oneway-request")
           /\ Expect(Ev.elapsed <= Ev.bound, "reply-later-than-timeout-plus-slack")
           /\ Expect(~Ev.foreign, "local-reply-carries-upstream-body")   \* a reply the proxy made itself holds nothing of an (earlier) upstream answer
-          /\ UNCHANGED vars
+          /\ UNCHANGED <<vars, tryEnded, lateOK>>
 
 (* the request was ENDED towards the upstream, whatever its shape (RequestForward!EndedOnce): every attempt that got an
    upstream stream arrived there as a complete request - an upstream only sees a request that was ended -, and a body
@@ -90,7 +109,7 @@ TUpSeen == /\ IsEvent("upseen")
            /\ Expect(Ev.arrivals <= Ev.sent, "more-upstream-requests-than-attempts")
            /\ Expect(Ev.arrivals = 0 \/ Ev.want < 0 \/ (Ev.same /\ Ev.blen = Ev.want), "upstream-body-differs-from-request-shape")
            /\ Expect(Ev.arrivals = 0 \/ Ev.want < 0 \/ ((Ev.data = "bytes") <=> (Ev.blen > 0)), "upstream-body-differs-from-request-shape")
-           /\ UNCHANGED vars
+           /\ UNCHANGED <<vars, tryEnded, lateOK>>
 
 TQuiesce == /\ IsEvent("quiesce")
             /\ Expect(\A r \in Rids : st[r] # "open", "request-never-ended")
@@ -100,7 +119,7 @@ TQuiesce == /\ IsEvent("quiesce")
             /\ Expect((\E r \in Rids : st[r] = "open") \/ Ev.rq = 0, "requests-resource-not-returned")
             /\ Expect((\E r \in Rids : st[r] = "open") \/ Ev.pd = 0, "pending-resource-not-returned")
             /\ Expect((\E r \in Rids : st[r] = "open") \/ Ev.rt = 0, "retries-resource-not-returned")
-            /\ UNCHANGED vars
+            /\ UNCHANGED <<vars, tryEnded, lateOK>>
 
 TraceNext == TRun \/ TNew \/ TAttempt \/ TReply \/ TClientReset \/ TTerminate \/ TClean \/ TNote \/ TCDone \/ TUpSeen \/ TQuiesce
 TraceSpec == TraceInit /\ [][TraceNext]_tvars
